@@ -52,3 +52,25 @@ PROPS["C15"] = {
     "rule": "durations: boundary classes exhaustively (each sub-second digit count, carries at 60 s / 60 min, negatives, +-1 around every unit, MinInt64/MaxInt64) "
             "+ random int64; duration strings: fixed list of documented/undocumented forms + grammar-generated + single-position mutations",
 }
+
+XMLENC_TB = ["modelled, not verified: AES/DES/RSA/GCM primitives (abstract Block/Aead/rsaDec parameters of the theorems; in the correspondence they are "
+             "a ledger computed with the standard library independently of xmlenc), etree path lookup, base64",
+             "hook: xmlenc/verif_hooks.go (toy block cipher for byte-exact CBC framing comparison)"]
+PROPS["C10"] = {
+    "modules": ["SamlVerif.Props.C10"],
+    "trusted_base": XMLENC_TB,
+    "assumptions": ["block ciphers are length-preserving permutations of blocks; AEAD open(seal) = id (hypotheses Block.Good / Aead.Good)",
+                    "interoperation is tested against a reference written from the W3C text with the standard library (testing, not proof); "
+                    "the reference uses the same hash for OAEP's MGF as Go's rsa.EncryptOAEP does"],
+    "rule": "toy cipher byte-exact for every plaintext length 0..4 blocks+1 (block sizes 8, 16) + random; every offered block cipher x direct key and x "
+            "every key transport/digest, plaintext lengths 0..4 blocks+1, Encrypt -> harness's reading of the element -> real registry dispatch vs model "
+            "with stdlib-computed ledger; reference interop both directions; AES-GCM decrypt of reference values and the GCM encryption known finding",
+}
+PROPS["C11"] = {
+    "modules": ["SamlVerif.Props.C11"],
+    "trusted_base": XMLENC_TB,
+    "assumptions": ["AEAD authenticity (Aead.Good.auth) for the GCM tamper theorem"],
+    "rule": "cipher-value lengths 0..4 blocks+1 exhaustively for the toy cipher and every registered algorithm; wrong key sizes and Go key types; "
+            "every single-byte flip and every truncation of a valid GCM value; structure-aware mutation (0-3 dimensions) of valid two-layer elements "
+            "(algorithm/digest identifiers, certificates, cipher values absent/bad base64/truncated/extended/flipped, nested or removed EncryptedKey)",
+}
